@@ -158,6 +158,29 @@ func (r *RawBoc) Body() []byte {
 	return body
 }
 
+// Resize brings the total size, the offset width and the index in line with the cells as they are now.
+func (r *RawBoc) Resize() {
+	cache := len(r.Magic) == 4 && r.Magic[0] == 0xb5 && r.SizeByte&32 != 0
+	tot := uint64(0)
+	r.Index = r.Index[:0]
+	for i := range r.CellList {
+		tot += uint64(len(r.CellList[i].bytes(r.size())))
+		if cache {
+			r.Index = append(r.Index, tot*2)
+		} else {
+			r.Index = append(r.Index, tot)
+		}
+	}
+	r.TotSize = tot
+	need := bytesFor(tot)
+	if cache {
+		need = bytesFor(tot*2 + 1)
+	}
+	if int(r.OffBytes) < need {
+		r.OffBytes = byte(need)
+	}
+}
+
 func (r *RawBoc) Bytes() []byte {
 	size, off := r.size(), int(r.OffBytes)
 	out := append([]byte{}, r.Magic...)
